@@ -151,6 +151,7 @@ def run(ctx):
         "cross_process_comparisons": cross,
         "export_network_files_compared": sum(s.get("networkfiles", 0) for s in summaries.values()),
         "history_comparisons": sum(s.get("histories", 0) for s in summaries.values()),
+        "interleaved_format_exports": sum(s.get("interleaves", 0) for s in summaries.values()),
         "distinct_nontrivial": s0.get("nontrivial", 0),
         "distinct_cases": s0.get("distinct", 0),
         "rule": "cases = seeded random networks (4 of 5 with deliberately tied sort keys: same-named types / units / enums / "
